@@ -1,12 +1,29 @@
 #!/venv/bin/python
-"""Entry point: check.py <ID> quick|thorough   |   check.py <ID> --replay f"""
+"""Entry point: check.py <ID> quick|thorough   |   check.py <ID> --replay f
+
+Exit 0: property held on everything explored; 1: violation (always with a
+VIOLATION line); 2: harness/environment error (inconclusive).  Anything that
+escapes - including failures while importing the harness, e.g. MemoryError on
+a starved machine - is mapped to 2 so that Python's default exit status 1 for
+uncaught exceptions can never be mistaken for a violation."""
 import os
 import sys
 
 sys.path.insert(0, os.path.dirname(os.path.abspath(__file__)))
 sys.dont_write_bytecode = True
 
-from vlib import runner  # noqa: E402
-
 if __name__ == '__main__':
-    sys.exit(runner.main(sys.argv[1:]))
+    try:
+        from vlib import runner  # noqa: E402
+        rc = runner.main(sys.argv[1:])
+    except SystemExit:
+        raise
+    except BaseException as e:  # noqa
+        try:
+            import traceback
+            traceback.print_exc()
+            print('HARNESS-ERROR: %r' % (e,), file=sys.stderr)
+        except BaseException:  # noqa
+            pass
+        os._exit(2)
+    sys.exit(rc)
